@@ -12,6 +12,7 @@ from .. import e1, e2core as E, e3, harness, sym
 from . import base
 
 PROP = "C15"
+SOLVER = {'bounds': 'templates with <= 6 symbolic characters over stated alphabets, concrete lengths; 3 caller option vectors; options as object / dict; project sources'}
 
 OPTION_NAMES = ["original_code_as_comment", "generated_comments", "inline_functions", "remove_labels",
                 "append_version", "compact", "tail_call_optimization", "use_push_pop_functions"]
